@@ -25,6 +25,7 @@ EXPLANATION = (
     "handlers of every chain it cancels are followed through calls and registrations, and the produce sender must "
     "be unreachable except through sites dominated by a test of a flag that stop() sets first; a flag written by "
     "stop() and read nowhere is reported (contradiction)."
+    ' Also: the thresholds and the period hold what the constructor was given - 0 / None stay `off` (R6).'
 )
 SHARED = [('C01', ['R7'], 'stopping the producer fails every outstanding send'), ('C09', ['R1'], 'a threshold met while a batch is in flight takes effect the moment that batch resolves'), ('C01', ['R3'], 'cancelling one send only detaches that caller')]
 ASSUMPTIONS = [
@@ -343,6 +344,22 @@ def run(ctx):
     lp = [n for n in scfg.nodes if any(call_name(c) == "stop" and isinstance(c.func, ast.Attribute) and (
         call_recv(c) == "self._sendLooper" or any(norm(e_) == "self._sendLooper" for _d, e_ in (value_leaves(scfg, n.id, c.func.value, params=stop.params) or ()))) for c in n.calls())]
     r.check(bool(lp), "%s#looper-stopped" % stop.qname, "stop() does not stop the periodic timer", where(stop, stop.node))
+
+    # the periodic timer runs free: started by the constructor (restarted by its failure handler), stopped by stop(),
+    # never reset - a reset on every send turns "no message waits longer than one period" into a debounce
+    touched = []
+    pcls = prog.cls(PROD)
+    for f_ in sorted([x for x in prog.funcs.values() if x.cls is pcls], key=lambda x: x.qname):
+        for c_ in calls_in(f_):
+            if call_name(c_) in ("reset", "start", "stop") and isinstance(c_.func, ast.Attribute):
+                og_ = value_origins(ctx.cfg(f_), ctx.cfg(f_).containing(c_)[0].id, c_.func.value, params=f_.params) if isinstance(c_.func.value, ast.Name) and ctx.cfg(f_).containing(c_) else [(0, c_.func.value)]
+                if any(norm(e_) == "self._sendLooper" or (isinstance(e_, ast.Call) and call_name(e_) == "LoopingCall") for _d, e_ in (og_ or [])):
+                    allowed_ = {"start": ("__init__", "_send_timer_failed", "_start_send_timer"), "stop": ("stop",), "reset": ()}[call_name(c_)]
+                    if f_.name not in allowed_:
+                        touched.append("%s: %s() line %d" % (f_.qname, call_name(c_), c_.lineno))
+    r1b = ctx.rule("R7", "the batch timer is started once, stopped by stop(), and never reset", 1, "A")
+    r1b.check(not touched, "%s#timer-free-running" % PROD, "the periodic batch timer is manipulated outside its life cycle: %s" % touched,
+              where(sendm, sendm.node), "a trickle of sends more frequent than the period keeps resetting the timer: the batch waits without bound")
 
     # ---- R6 the thresholds compared by the dispatch test are the configured ones
     r = ctx.rule("R6", "count / byte thresholds and the period hold what the constructor was given (0 / None = off), or the fixed unbatched values", 3, "A")
